@@ -8,15 +8,22 @@
 package c13
 
 import (
+	"errors"
 	"fmt"
+	"hash/fnv"
+	"sort"
 	"strings"
 	"testing"
 
 	_ "github.com/invopop/gobl" // registers the regimes
+	"github.com/invopop/gobl/bill"
+	"github.com/invopop/gobl/cal"
 	"github.com/invopop/gobl/cbc"
 	"github.com/invopop/gobl/l10n"
+	"github.com/invopop/gobl/num"
 	"github.com/invopop/gobl/org"
 	"github.com/invopop/gobl/tax"
+	"github.com/invopop/validation"
 	"github.com/invopop/gobl/verifharness/internal/vh"
 )
 
@@ -53,6 +60,65 @@ func normalised(country, code string) (nc, ncode string, agree bool) {
 }
 
 // ---------------------------------------------------------------------------
+// the same identity as the customer of an invoice of another regime: the
+// document's regime must leave it to the identity's own rules
+
+var docRegimes []string
+
+func hashOf(s string) uint32 {
+	h := fnv.New32a()
+	_, _ = h.Write([]byte(s))
+	return h.Sum32()
+}
+
+// inDocument calculates (and validates) an invoice of a regime chosen by the
+// code's hash, other than the identity's own, with the identity as customer.
+func inDocument(country, code string, validate bool) (docRegime, nc, ncode string, idErr string, ok bool) {
+	if docRegimes == nil {
+		for _, r := range tax.AllRegimeDefs() {
+			docRegimes = append(docRegimes, string(r.Country))
+		}
+		sort.Strings(docRegimes)
+	}
+	own := ""
+	if r := tax.RegimeDefFor(l10n.Code(country)); r != nil {
+		own = string(r.Country)
+	}
+	i := int(hashOf(code) % uint32(len(docRegimes)))
+	if docRegimes[i] == own {
+		i = (i + 1) % len(docRegimes)
+	}
+	docRegime = docRegimes[i]
+	price := num.MakeAmount(1000, 2)
+	inv := &bill.Invoice{
+		Regime:    tax.WithRegime(l10n.TaxCountryCode(docRegime)),
+		Series:    "C13",
+		Code:      "1",
+		IssueDate: cal.MakeDate(2024, 6, 13),
+		Supplier:  &org.Party{Name: "Supplier", TaxID: &tax.Identity{Country: l10n.TaxCountryCode(docRegime)}},
+		Customer:  &org.Party{Name: "Customer", TaxID: &tax.Identity{Country: l10n.TaxCountryCode(country), Code: cbc.Code(code)}},
+		Lines:     []*bill.Line{{Quantity: num.MakeAmount(1, 0), Item: &org.Item{Name: "x", Price: &price}}},
+	}
+	if err := inv.Calculate(); err != nil || inv.Customer == nil || inv.Customer.TaxID == nil {
+		return docRegime, "", "", "", false
+	}
+	nc, ncode = string(inv.Customer.TaxID.Country), string(inv.Customer.TaxID.Code)
+	if validate {
+		if err := inv.Validate(); err != nil {
+			var ve validation.Errors
+			if errors.As(err, &ve) {
+				if ce, ok := ve["customer"].(validation.Errors); ok {
+					if te, ok := ce["tax_id"]; ok && te != nil {
+						idErr = te.Error()
+					}
+				}
+			}
+		}
+	}
+	return docRegime, nc, ncode, idErr, true
+}
+
+// ---------------------------------------------------------------------------
 // acceptance oracle
 
 func judgeAccept(c Case, o *vh.Obs) {
@@ -75,6 +141,21 @@ func judgeAccept(c Case, o *vh.Obs) {
 	if !agree {
 		o.Failf(r.key+":party-identity-disagree", "%s %q: tax.Identity.Validate accepted=%v but org.Party validation says otherwise (%s)", c.Country, c.Code, acc, errText)
 		return
+	}
+	if hashOf(c.Code)%8 == 0 {
+		// an already-normalised code: the document must neither change nor judge it differently
+		if dr, nc, ncode, idErr, ok := inDocument(c.Country, c.Code, true); ok {
+			o.Class("in-document")
+			xc, x, _ := normalised(c.Country, c.Code)
+			if nc != xc || ncode != x {
+				o.Failf(r.key+":document-alters-identity", "%s %q as the customer of a %s invoice becomes %s %q (on its own: %s %q)", c.Country, c.Code, dr, nc, ncode, xc, x)
+				return
+			}
+			if x == c.Code && xc == c.Country && (idErr == "") != acc {
+				o.Failf(r.key+":document-verdict-differs", "%s %q: accepted=%v on its own, but as the customer of a %s invoice its validation says %q", c.Country, c.Code, acc, dr, idErr)
+				return
+			}
+		}
 	}
 	switch res.V {
 	case vValid:
@@ -191,6 +272,15 @@ func judgeNormalise(c NormCase, o *vh.Obs) {
 		o.Failf(r.key+":norm-format-sensitive:"+feature, "%s: N(%q) = %s %q but the written form %q normalises to %s %q", c.Country, c.Code, xc, x, c.Formatted, yc, y)
 		return
 	}
+	if hashOf(c.Formatted)%2 == 0 {
+		if dr, nc, ncode, _, ok := inDocument(c.Country, c.Formatted, false); ok {
+			o.Class("in-document")
+			if nc != yc || ncode != y {
+				o.Failf(r.key+":document-alters-identity", "%s %q as the customer of a %s invoice normalises to %s %q (on its own: %s %q)", c.Country, c.Formatted, dr, nc, ncode, yc, y)
+				return
+			}
+		}
+	}
 	zc, z, _ := normalised(yc, y)
 	if z != y || zc != yc {
 		o.Failf(r.key+":norm-not-idempotent", "%s: N(%q) = %s %q, normalising again gives %s %q", c.Country, c.Formatted, yc, y, zc, z)
@@ -271,7 +361,7 @@ func selfTest() {
 func init() {
 	selfTest()
 	vh.Describe(
-		"Per regime with a tax-identity rule (AT BE BR CH CO DE ES FR GB GR/EL IN IT NL PL PT; format-only AE MX) candidate codes are: codes CONSTRUCTED valid with an independent reference implementation of the national algorithm (30%); one decimal digit of such a code replaced by another (20%); one character replaced by any other of the national alphabet (10%); strings constructed to land on the special-remainder branch of the scheme (remainder 10/11/0-1 folding, check 97 vs 00, ...) with the folded, neighbouring and random check characters (15%); right shape with random check characters, legacy lengths and reserved prefixes (15%); random strings of the national alphabet at the national length +-1 (5%); valid codes with one character dropped or doubled (5%); plus an exhaustive enumeration of every single-character substitution (every position x whole national alphabet) of a fixed list of valid codes per regime (checks '<cc>_edits'). Oracle: accepted(code) <=> reference(code), observed through tax.Identity.Validate and org.Party validation (which must agree) with the regime registered and an already-normalised code; the reference is tri-state and says 'unsettled' (nothing asserted, class unsettled-*) wherever the national rule could not be settled offline. Single-digit law: for AT BE CH DE ES(DNI/NIE/entity, not K/L/M) FR IN IT PL a digit-for-digit substitution in an accepted code must be rejected. Normaliser (checks '<cc>_normalise'): for canonical codes x and written forms y of x (spaces, dots, dashes, slashes between characters, leading/trailing space, lower case, country prefix with optional separator; EL and GR for Greece, either as Identity.Country) N(y)=N(x), N(N(y))=N(y), digits of N(y) = digits of x (FR: a bare valid SIREN gains its two key digits in front), and a reference-valid code in normal form is a fixed point of N. Non-trivial: reference-valid code, or single-substitution of a valid code, or a code on the special-remainder branch; for the normaliser any variant other than the plain code.",
+		"Per regime with a tax-identity rule (AT BE BR CH CO DE ES FR GB GR/EL IN IT NL PL PT; format-only AE MX) candidate codes are: codes CONSTRUCTED valid with an independent reference implementation of the national algorithm (30%); one decimal digit of such a code replaced by another (20%); one character replaced by any other of the national alphabet (10%); strings constructed to land on the special-remainder branch of the scheme (remainder 10/11/0-1 folding, check 97 vs 00, ...) with the folded, neighbouring and random check characters (15%); right shape with random check characters, legacy lengths and reserved prefixes (15%); random strings of the national alphabet at the national length +-1 (5%); valid codes with one character dropped or doubled (5%); plus an exhaustive enumeration of every single-character substitution (every position x whole national alphabet) of a fixed list of valid codes per regime (checks '<cc>_edits'). Oracle: accepted(code) <=> reference(code), observed through tax.Identity.Validate and org.Party validation (which must agree) with the regime registered and an already-normalised code; the reference is tri-state and says 'unsettled' (nothing asserted, class unsettled-*) wherever the national rule could not be settled offline. Single-digit law: for AT BE CH DE ES(DNI/NIE/entity, not K/L/M) FR IN IT PL a digit-for-digit substitution in an accepted code must be rejected. Normaliser (checks '<cc>_normalise'): for canonical codes x and written forms y of x (spaces, dots, dashes, slashes between characters, leading/trailing space, lower case, country prefix with optional separator; EL and GR for Greece, either as Identity.Country) N(y)=N(x), N(N(y))=N(y), digits of N(y) = digits of x (FR: a bare valid SIREN gains its two key digits in front), and a reference-valid code in normal form is a fixed point of N. In a document: for half of the written forms and an eighth of the candidate codes the identity is also placed as the customer of an invoice of another regime (chosen by the code's hash among all registered regimes): calculation must normalise it exactly as on its own and the invoice's validation must judge customer.tax_id exactly as the identity on its own. Non-trivial: reference-valid code, or single-substitution of a valid code, or a code on the special-remainder branch; for the normaliser any variant other than the plain code.",
 		"national algorithms as published (EU VIES algorithm descriptions, BMF, KBO, Receita Federal, BFS UID, DIAN, BZSt ISO 7064, AEAT/Orden EHA/451/2008, INSEE, HMRC, AADE, GSTN, Agenzia Entrate, Belastingdienst 11-proef + 2020 mod-97, Polish NIP, Portuguese NIF); references were written from these descriptions, not from the repository",
 		"not asserted (unsettled): all-zero bodies; BE 9-digit legacy form, leading 1, 00 prefix; BR alphanumeric CNPJ (2026); CO lengths other than 9-10; ES K/L/M control scheme and digit-vs-letter control convention of entity codes; FR letter keys and SIREN Luhn; GB registration ranges and check 00 vs 97 when the sum is a multiple of 97; IN 14th character other than Z and state codes outside the list; NL suffix B00; PL office prefixes outside 101-998; PT leading digits outside the published list; MX date / check character of the RFC",
 		"single-digit law not asserted for GB and NL (two alternative algorithms), GR PT BR CO (remainder folding maps two remainders to one digit), letter positions, AE/MX (no check digit)",
